@@ -251,7 +251,7 @@ func init() {
 		Shards: shards(14, 16),
 		Meta: func(tier string) rt.Meta {
 			return rt.Meta{Level: "exploration", MinEvals: 20000, MinDistinct: 200,
-				Rule:        "differential against the kernel under a switched fsuid/fsgid (no supplementary groups) in a chroot on tmpfs: configurations /w/d1/d2/x and /w/e1/y with (owner, group, 9 permission bits) per node, acting user among owner / same-group / other / administrator / an ordinary user whose primary group is gid 0, umask among {0,002,022,027,077,0777,0222,0111}; 45 calls (incl. Glob patterns and WalkDir across the configured directories, Chtimes with both, one or no time omitted). Exhaustive part: for every call, every one of the 512 modes of EACH ONE of d1, d2, x, e1 (others fully open) x 6 owner/group assignments x 5 users (quick: a seed-dependent 1/8 of the modes); random part: all nodes random. Compared: allow/refuse, errno, returned values, and the whole tree afterwards (owner, group, mode of created objects). Creation calls also carry the sticky/setuid/setgid bits in perm (mode perm &^ umask is about all twelve bits). Two symbolic links lead from e1 across to the other branch; MkdirAll, Stat, ReadDir and ReadFile go through them. Signature = call | kind of x | actor class | the actor's effective rwx on each node | outcome; non-trivial = acting user is not the administrator.",
+				Rule:        "differential against the kernel under a switched fsuid/fsgid (no supplementary groups) in a chroot on tmpfs: configurations /w/d1/d2/x and /w/e1/y with (owner, group, 9 permission bits) per node, acting user among owner / same-group / other / administrator / an ordinary user whose primary group is gid 0, umask among {0,002,022,027,077,0777,0222,0111}; 45 calls (incl. Glob patterns and WalkDir across the configured directories, Chtimes with both, one or no time omitted). Exhaustive part: for every call, every one of the 512 modes of EACH ONE of d1, d2, x, e1 (others fully open) x 6 owner/group assignments x 5 users (quick: a seed-dependent 1/8 of the modes); random part: all nodes random. Compared: allow/refuse, errno, returned values, and the whole tree afterwards (owner, group, mode of created objects). Creation calls also carry the sticky/setuid/setgid bits in perm (mode perm &^ umask is about all twelve bits). Two symbolic links lead from e1 across to the other branch; MkdirAll, Stat, ReadDir and ReadFile go through them. Moves of directories: to another parent, below themselves (refused as such before any permission is checked), onto an existing directory. Signature = call | kind of x | actor class | the actor's effective rwx on each node | outcome; non-trivial = acting user is not the administrator.",
 				Assumptions: []string{"only the 9 permission bits are assigned (no setuid/setgid/sticky)", "fs.protected_hardlinks=1 on this kernel: Link of a file the caller neither owns nor can read+write is excluded and counted"}}
 		},
 		Timeout: func(tier string) int {
